@@ -485,6 +485,9 @@ def bad_matrix(p):
     raise KeyError(kind)
 
 
+METHODS = ["chiaverini", "hughes", "itzhack", "sarabandi", "shepperd"]
+
+
 def check_reject_mat(case, ctx):
     import ahrs
     from ahrs.common.dcm import DCM
@@ -497,6 +500,17 @@ def check_reject_mat(case, ctx):
             return
     must_reject(ctx, "reject/DCM", lambda: DCM(M.copy()), {"kind": kind})
     must_reject(ctx, "reject/Quaternion(dcm=)", lambda: ahrs.Quaternion(dcm=M.copy()), {"kind": kind})
+    # every value of the conversion-method option (the constructors take method=): which formula would have been used does not decide whether a
+    # non-rotation is let in - one matrix, and a stack with the non-rotation at any position among rotations
+    if M.shape == (3, 3) and not np.iscomplexobj(M) and M.dtype.kind == "f":
+        meth = METHODS[int(abs(float(case.p["R"][0, 1])) * 1e6) % len(METHODS)]
+        pos = int(abs(float(case.p["R"][1, 2])) * 1e6) % 3
+        Rv = case.p["R"]
+        stack = np.array([Rv, Rv.T, Rv @ Rv])
+        stack[pos] = M
+        must_reject(ctx, "reject/Quaternion(dcm=)", lambda: ahrs.Quaternion(dcm=M.copy(), method=meth), {"kind": kind + " [method=%s]" % meth})
+        must_reject(ctx, "reject/QuaternionArray", lambda: ahrs.QuaternionArray(DCM=stack.copy(), method=meth), {"kind": kind + " [stack, method=%s, position %d]" % (meth, pos)})
+        must_reject(ctx, "reject/QuaternionArray", lambda: ahrs.QuaternionArray(DCM=M.copy()[None], method=meth), {"kind": kind + " [one-matrix stack, method=%s]" % meth})
     # the same non-rotation as an object of the matrix class: array arithmetic on a valid DCM (2*R, -R, R + E) yields DCM-typed results that were
     # never validated - a constructor given one must judge the values, not the type
     if M.shape == (3, 3) and not np.iscomplexobj(M) and M.dtype.kind == "f":
